@@ -11,6 +11,7 @@
   * `evalRules`; `evalRules_rulesOf`: applying the rules to a point is `Tree.route`.
 -/
 import GemVerif.Model.Kauri
+import Std.Data.String.ToInt
 
 namespace GemVerif.KauriC19
 open GemVerif RealLike Model.Kauri
@@ -221,5 +222,487 @@ theorem evalRules_rulesOf {t : Tree α} (ht : WellFormed t) {sh : α → String}
       simp only [rulesOf, Tree.route, evalRules, beq_iff_eq, hl, if_false, hv, thrStr, h1, h2]
       rw [ih _ hL.2 (by omega), ih _ hR.2 (by omega)]
       rfl
+
+/-! ### the text level: every printed line determines its structured line -/
+
+/-- count and remove the leading `"| "` -/
+def stripBars : List Char → Nat × List Char
+  | '|' :: ' ' :: cs => ((stripBars cs).1 + 1, (stripBars cs).2)
+  | cs => (0, cs)
+
+def readBody (d : Nat) (body : List Char) : Option Line :=
+  let rb := body.reverse
+  let thr := (rb.takeWhile (· != ' ')).reverse
+  match rb.dropWhile (· != ' ') with
+  | ' ' :: '=' :: '<' :: ' ' :: nameRev => some (.le d (String.ofList nameRev.reverse) (String.ofList thr))
+  | ' ' :: '>' :: ' ' :: nameRev => some (.gt d (String.ofList nameRev.reverse) (String.ofList thr))
+  | _ => none
+
+def readChars (cs : List Char) : Option Line :=
+  match stripBars cs with
+  | (d, 'N' :: 'o' :: 'd' :: 'e' :: ' ' :: ds) => (String.ofList ds).toNat?.map (Line.node d)
+  | (d, ' ' :: 'C' :: 'l' :: 'u' :: 's' :: 't' :: 'e' :: 'r' :: ':' :: ' ' :: ds) =>
+    (String.ofList ds).toInt?.map (Line.cluster d)
+  | (d, '|' :: '=' :: body) => readBody d body
+  | _ => none
+
+def Line.read (s : String) : Option Line := readChars s.toList
+
+
+theorem toList_rep (d : Nat) : (rep "| " d).toList = (List.replicate d ['|', ' ']).flatten := by
+  induction d with
+  | zero => simp [rep]
+  | succ k ih => simp [rep, List.replicate_succ, String.toList_join] at ih ⊢; exact ih
+
+theorem stripBars_rep (d : Nat) (r : List Char) (h : ∀ cs, r ≠ '|' :: ' ' :: cs) :
+    stripBars ((List.replicate d ['|', ' ']).flatten ++ r) = (d, r) := by
+  induction d with
+  | zero =>
+    simp
+    unfold stripBars
+    split
+    · exact absurd rfl (h _)
+    · rfl
+  | succ k ih => simp [List.replicate_succ, stripBars, ih]
+
+
+theorem toString_str (s : String) : toString s = s := rfl
+
+theorem toList_render_le (d : Nat) (n th : String) : (Line.render (.le d n th)).toList =
+    (List.replicate d ['|', ' ']).flatten ++ ('|' :: '=' :: (n.toList ++ ' ' :: '<' :: '=' :: ' ' :: th.toList)) := by
+  simp [Line.render, toList_rep, toString_str]
+theorem toList_render_gt (d : Nat) (n th : String) : (Line.render (.gt d n th)).toList =
+    (List.replicate d ['|', ' ']).flatten ++ ('|' :: '=' :: (n.toList ++ ' ' :: '>' :: ' ' :: th.toList)) := by
+  simp [Line.render, toList_rep, toString_str]
+theorem toList_render_node (d : Nat) (n : Nat) : (Line.render (.node d n)).toList =
+    (List.replicate d ['|', ' ']).flatten ++ ('N' :: 'o' :: 'd' :: 'e' :: ' ' :: (Nat.repr n).toList) := by
+  simp [Line.render, toList_rep, toString_str]
+theorem toList_render_cluster (d : Nat) (n : Int) : (Line.render (.cluster d n)).toList =
+    (List.replicate d ['|', ' ']).flatten ++ (' ' :: 'C' :: 'l' :: 'u' :: 's' :: 't' :: 'e' :: 'r' :: ':' :: ' ' :: (Int.repr n).toList) := by
+  simp [Line.render, toList_rep, toString_str]
+
+theorem readBody_le (d : Nat) (n th : List Char) (h : ∀ c ∈ th, c ≠ ' ') :
+    readBody d (n ++ ' ' :: '<' :: '=' :: ' ' :: th) = some (.le d (String.ofList n) (String.ofList th)) := by
+  have e : (n ++ ' ' :: '<' :: '=' :: ' ' :: th).reverse = th.reverse ++ (' ' :: '=' :: '<' :: ' ' :: n.reverse) := by
+    simp
+  have hp : ∀ c ∈ th.reverse, (c != ' ') = true := by
+    intro c hc; simpa using h c (List.mem_reverse.mp hc)
+  simp only [readBody, e, List.takeWhile_append_of_pos hp, List.dropWhile_append_of_pos hp]
+  simp
+
+theorem readBody_gt (d : Nat) (n th : List Char) (h : ∀ c ∈ th, c ≠ ' ') :
+    readBody d (n ++ ' ' :: '>' :: ' ' :: th) = some (.gt d (String.ofList n) (String.ofList th)) := by
+  have e : (n ++ ' ' :: '>' :: ' ' :: th).reverse = th.reverse ++ (' ' :: '>' :: ' ' :: n.reverse) := by
+    simp
+  have hp : ∀ c ∈ th.reverse, (c != ' ') = true := by
+    intro c hc; simpa using h c (List.mem_reverse.mp hc)
+  simp only [readBody, e, List.takeWhile_append_of_pos hp, List.dropWhile_append_of_pos hp]
+  simp
+
+/-- a line whose threshold text contains no blank -/
+def Line.ThrNoBlank : Line → Prop
+  | .le _ _ th => ∀ c ∈ th.toList, c ≠ ' '
+  | .gt _ _ th => ∀ c ∈ th.toList, c ≠ ' '
+  | _ => True
+
+theorem read_render (l : Line) (h : l.ThrNoBlank) : Line.read (Line.render l) = some l := by
+  cases l with
+  | node d id =>
+    rw [Line.read, toList_render_node, readChars, stripBars_rep _ _ (by simp)]
+    simp [← Nat.repr_eq_ofList_toDigits]
+  | cluster d c =>
+    rw [Line.read, toList_render_cluster, readChars, stripBars_rep _ _ (by simp)]
+    simp
+  | le d n th =>
+    rw [Line.read, toList_render_le, readChars, stripBars_rep _ _ (by simp)]
+    simp [readBody_le d n.toList th.toList h]
+  | gt d n th =>
+    rw [Line.read, toList_render_gt, readChars, stripBars_rep _ _ (by simp)]
+    simp [readBody_gt d n.toList th.toList h]
+
+/-- read every line -/
+def readLines : List String → Option (List Line)
+  | [] => some []
+  | s :: ss =>
+    match Line.read s, readLines ss with
+    | some l, some ls => some (l :: ls)
+    | _, _ => none
+
+theorem readLines_map_render (ls : List Line) (h : ∀ l ∈ ls, l.ThrNoBlank) :
+    readLines (ls.map Line.render) = some ls := by
+  induction ls with
+  | nil => rfl
+  | cons l ls ih =>
+    simp only [List.map_cons, readLines, read_render l (h l (List.mem_cons_self ..)),
+      ih (fun l' hl' => h l' (List.mem_cons_of_mem _ hl'))]
+
+/-- read the printed lines back into rules -/
+def parseText (ss : List String) : Option Rules := (readLines ss).bind parse
+
+/-- no printed threshold of the tree contains a blank (Python's `repr(float)` never does) -/
+def ThrNoBlank (t : Tree α) (showThr : α → String) : Prop :=
+  ∀ n, n < t.nNodes → t.left[n]! ≠ -1 → ∀ v, t.thr[n]! = some v → ∀ c ∈ (showThr v).toList, c ≠ ' '
+
+/-- a property of lines that holds for every node line, every cluster line and the two rule lines of every internal
+    node holds for every printed line -/
+theorem printLines_forall {t : Tree α} (ht : WellFormed t) (sh : α → String) (nm : Int → String) (P : Line → Prop)
+    (hnode : ∀ d i, P (.node d i)) (hcl : ∀ d c, P (.cluster d c))
+    (hrule : ∀ n, n < t.nNodes → t.left[n]! ≠ -1 → ∀ d,
+      P (.le d (nm (featAt t n)) (thrStr t sh n)) ∧ P (.gt d (nm (featAt t n)) (thrStr t sh n))) :
+    ∀ (k node : Nat), node < t.nNodes → ∀ l ∈ printLines t sh nm k node, P l := by
+  intro k
+  induction k with
+  | zero => intro node _ l hl; simp [printLines] at hl
+  | succ k ih =>
+    intro node hn l hl
+    by_cases hleaf : t.left[node]! = -1
+    · simp only [printLines, hleaf, beq_self_eq_true, if_true, List.mem_cons, List.not_mem_nil, or_false] at hl
+      rcases hl with rfl | rfl
+      · exact hnode _ _
+      · exact hcl _ _
+    · have hi := ht.internal node hn hleaf
+      have hr := hrule node hn hleaf (t.depths[node]!)
+      simp only [printLines, beq_iff_eq, hleaf, if_false, List.mem_append, List.mem_cons, List.not_mem_nil,
+        or_false] at hl
+      rcases hl with ((((rfl | rfl) | hl) | rfl) | hl)
+      · exact hnode _ _
+      · exact hr.1
+      · exact ih _ hi.left_toNat.2 l hl
+      · exact hr.2
+      · exact ih _ hi.right_toNat.2 l hl
+
+theorem thrStr_of_some {t : Tree α} {sh : α → String} {n : Nat} {v : α} (hv : t.thr[n]! = some v) :
+    thrStr t sh n = sh v := by
+  simp [thrStr, hv]
+
+theorem printLines_thrNoBlank {t : Tree α} (ht : WellFormed t) {sh : α → String} (hnb : ThrNoBlank t sh)
+    (nm : Int → String) :
+    ∀ (k node : Nat), node < t.nNodes → ∀ l ∈ printLines t sh nm k node, l.ThrNoBlank := by
+  refine printLines_forall ht sh nm Line.ThrNoBlank (fun _ _ => True.intro) (fun _ _ => True.intro) ?_
+  intro n hn hleaf d
+  obtain ⟨v, hv⟩ := Option.isSome_iff_exists.mp (ht.internal n hn hleaf).thr_some
+  have hth : ∀ c ∈ (thrStr t sh n).toList, c ≠ ' ' := by
+    rw [thrStr_of_some hv]; exact hnb n hn hleaf v hv
+  exact ⟨hth, hth⟩
+
+/-! ### from one text to lines -/
+
+/-- cut at newlines; `acc` holds the current line, reversed.  A final newline does not start a new line. -/
+def splitNL : List Char → List Char → List (List Char)
+  | acc, [] => if acc.isEmpty then [] else [acc.reverse]
+  | acc, c :: cs => if c = '\n' then acc.reverse :: splitNL [] cs else splitNL (c :: acc) cs
+
+/-- the lines of a text -/
+def splitLines (s : String) : List String := (splitNL [] s.toList).map String.ofList
+
+/-- what `print` writes for a list of lines: each followed by a newline -/
+def textOf (lines : List String) : String := String.join (lines.map (· ++ "\n"))
+
+theorem splitNL_line (l : List Char) (h : ∀ c ∈ l, c ≠ '\n') (acc rest : List Char) :
+    splitNL acc (l ++ '\n' :: rest) = (acc.reverse ++ l) :: splitNL [] rest := by
+  induction l generalizing acc with
+  | nil => simp [splitNL]
+  | cons c cs ih =>
+    have hc : c ≠ '\n' := h c (List.mem_cons_self ..)
+    simp [splitNL, hc, ih (fun c' hc' => h c' (List.mem_cons_of_mem _ hc'))]
+
+theorem splitLines_textOf (ls : List String) (h : ∀ s ∈ ls, ∀ c ∈ s.toList, c ≠ '\n') :
+    splitLines (textOf ls) = ls := by
+  have key : ∀ ls : List String, (∀ s ∈ ls, ∀ c ∈ s.toList, c ≠ '\n') →
+      (splitNL [] ((ls.map (· ++ "\n")).flatMap String.toList)).map String.ofList = ls := by
+    intro ls
+    induction ls with
+    | nil => intro _; simp [splitNL]
+    | cons s ss ih =>
+      intro h
+      have h1 := h s (List.mem_cons_self ..)
+      have h2 := ih (fun s' hs' => h s' (List.mem_cons_of_mem _ hs'))
+      simp only [List.map_cons, List.flatMap_cons, String.toList_append]
+      have : ("\n" : String).toList = ['\n'] := by simp
+      rw [this, List.append_assoc, List.singleton_append, splitNL_line _ h1]
+      simp [h2]
+  simp only [splitLines, textOf, String.toList_join]
+  exact key ls h
+
+theorem newline_not_mem_toDigits (n : Nat) : '\n' ∉ Nat.toDigits 10 n := by
+  intro h
+  have := Nat.isDigit_of_mem_toDigits (by decide) (by decide) h
+  exact absurd this (by decide)
+
+theorem newline_not_mem_intRepr (a : Int) : '\n' ∉ (Int.repr a).toList := by
+  cases a with
+  | ofNat m => simpa [Int.repr] using newline_not_mem_toDigits m
+  | negSucc m => simpa [Int.repr] using newline_not_mem_toDigits (m + 1)
+
+/-- a line whose labels contain no newline -/
+def Line.NoNewline : Line → Prop
+  | .le _ n th => (∀ c ∈ n.toList, c ≠ '\n') ∧ (∀ c ∈ th.toList, c ≠ '\n')
+  | .gt _ n th => (∀ c ∈ n.toList, c ≠ '\n') ∧ (∀ c ∈ th.toList, c ≠ '\n')
+  | _ => True
+
+theorem newline_not_mem_bars (d : Nat) : '\n' ∉ (List.replicate d ['|', ' ']).flatten := by
+  induction d with
+  | zero => simp
+  | succ k _ => simp [List.replicate_succ]
+
+theorem render_noNewline (l : Line) (h : l.NoNewline) : ∀ c ∈ l.render.toList, c ≠ '\n' := by
+  intro c hc heq
+  subst heq
+  cases l with
+  | node d id =>
+    rw [toList_render_node, List.mem_append] at hc
+    rcases hc with hc | hc
+    · exact newline_not_mem_bars d hc
+    · simp at hc
+      exact newline_not_mem_toDigits id hc
+  | cluster d a =>
+    rw [toList_render_cluster, List.mem_append] at hc
+    rcases hc with hc | hc
+    · exact newline_not_mem_bars d hc
+    · simp at hc
+      exact newline_not_mem_intRepr a hc
+  | le d n th =>
+    rw [toList_render_le, List.mem_append] at hc
+    rcases hc with hc | hc
+    · exact newline_not_mem_bars d hc
+    · simp at hc
+      rcases hc with hc | hc
+      · exact h.1 _ hc rfl
+      · exact h.2 _ hc rfl
+  | gt d n th =>
+    rw [toList_render_gt, List.mem_append] at hc
+    rcases hc with hc | hc
+    · exact newline_not_mem_bars d hc
+    · simp at hc
+      rcases hc with hc | hc
+      · exact h.1 _ hc rfl
+      · exact h.2 _ hc rfl
+
+/-- no printed label of the tree (feature label, threshold) contains a newline -/
+def NoNewline (t : Tree α) (showThr : α → String) (name : Int → String) : Prop :=
+  ∀ n, n < t.nNodes → t.left[n]! ≠ -1 →
+    (∀ c ∈ (name (featAt t n)).toList, c ≠ '\n') ∧ ∀ v, t.thr[n]! = some v → ∀ c ∈ (showThr v).toList, c ≠ '\n'
+
+theorem printLines_noNewline {t : Tree α} (ht : WellFormed t) {sh : α → String} {nm : Int → String}
+    (hnl : NoNewline t sh nm) :
+    ∀ (k node : Nat), node < t.nNodes → ∀ l ∈ printLines t sh nm k node, l.NoNewline := by
+  refine printLines_forall ht sh nm Line.NoNewline (fun _ _ => True.intro) (fun _ _ => True.intro) ?_
+  intro n hn hleaf d
+  obtain ⟨v, hv⟩ := Option.isSome_iff_exists.mp (ht.internal n hn hleaf).thr_some
+  have h := hnl n hn hleaf
+  have hth : ∀ c ∈ (thrStr t sh n).toList, c ≠ '\n' := by
+    rw [thrStr_of_some hv]; exact h.2 v hv
+  exact ⟨⟨h.1, hth⟩, ⟨h.1, hth⟩⟩
+
+/-- read a whole printed text back into rules -/
+def parseString (s : String) : Option Rules := parseText (splitLines s)
+
+/-! ### reading labels back when they are pairwise distinct -/
+
+/-- nodes that carry a rule -/
+def internalNodes (t : Tree α) : List Nat := (List.range t.nNodes).filter fun n => t.left[n]! != -1
+
+theorem mem_internalNodes {t : Tree α} {n : Nat} : n ∈ internalNodes t ↔ n < t.nNodes ∧ t.left[n]! ≠ -1 := by
+  simp [internalNodes]
+
+/-- column of a printed feature label: the feature of the first node printed with that label -/
+def colOfTree (t : Tree α) (name : Int → String) (s : String) : Nat :=
+  match (internalNodes t).find? (fun n => name (featAt t n) == s) with
+  | some n => (featAt t n).toNat
+  | none => 0
+
+/-- value of a printed threshold: the threshold of the first node printed with that text -/
+def readThrTree (t : Tree α) (showThr : α → String) (s : String) : α :=
+  match (internalNodes t).find? (fun n => thrStr t showThr n == s) with
+  | some n => (t.thr[n]!).getD 0
+  | none => 0
+
+/-- the labels of the features the tree uses are pairwise distinct -/
+def NamesDistinct (t : Tree α) (name : Int → String) : Prop :=
+  ∀ n m, n < t.nNodes → m < t.nNodes → t.left[n]! ≠ -1 → t.left[m]! ≠ -1 →
+    name (featAt t n) = name (featAt t m) → featAt t n = featAt t m
+
+/-- different thresholds of the tree print differently -/
+def ThrDistinct (t : Tree α) (showThr : α → String) : Prop :=
+  ∀ n m, n < t.nNodes → m < t.nNodes → t.left[n]! ≠ -1 → t.left[m]! ≠ -1 →
+    thrStr t showThr n = thrStr t showThr m → t.thr[n]! = t.thr[m]!
+
+theorem readBack_of_distinct {t : Tree α} {sh : α → String} {nm : Int → String}
+    (hn : NamesDistinct t nm) (hth : ThrDistinct t sh) :
+    ReadBack t sh nm (colOfTree t nm) (readThrTree t sh) := by
+  constructor
+  · intro n hlt hne v hv
+    have hs : thrStr t sh n = sh v := by simp [thrStr, hv]
+    unfold readThrTree
+    split
+    · rename_i m hm
+      have hp := List.find?_some hm
+      have hmem := mem_internalNodes.mp (List.mem_of_find?_eq_some hm)
+      have := hth m n hmem.1 hlt hmem.2 hne (by simpa [hs] using hp)
+      rw [this, hv]; rfl
+    · rename_i hnone
+      have := List.find?_eq_none.mp hnone n (mem_internalNodes.mpr ⟨hlt, hne⟩)
+      simp [hs] at this
+  · intro n hlt hne
+    unfold colOfTree
+    split
+    · rename_i m hm
+      have hp := List.find?_some hm
+      have hmem := mem_internalNodes.mp (List.mem_of_find?_eq_some hm)
+      rw [hn m n hmem.1 hlt hmem.2 hne (by simpa using hp)]
+    · rename_i hnone
+      have := List.find?_eq_none.mp hnone n (mem_internalNodes.mpr ⟨hlt, hne⟩)
+      simp at this
+
+/-- the default labels `X[:, f]` are pairwise distinct -/
+theorem defaultName_injective {f g : Int} (h : (s!"X[:, {f}]" : String) = s!"X[:, {g}]") : f = g := by
+  simpa [toString_str, Int.repr_inj] using h
+
+/-- entries of a list without repetition are pairwise distinct -/
+theorem userName_injective (names : Array String) (hnd : names.toList.Nodup) {i j : Nat}
+    (hi : i < names.size) (hj : j < names.size) (h : names[i]! = names[j]!) : i = j := by
+  rw [getElem!_pos names i hi, getElem!_pos names j hj] at h
+  have h' : names.toList[i]'(by simpa using hi) = names.toList[j]'(by simpa using hj) := by simpa using h
+  exact (List.getElem_inj hnd).mp h'
+
+/-! ### every tree `fit` can build is well formed: `Tree.init`, closed under `Tree.addChild` -/
+
+section arr
+variable {β : Type} [Inhabited β]
+
+theorem get_set (a : Array β) (i j : Nat) (v : β) :
+    (a.set! i v)[j]! = if i = j ∧ j < a.size then v else a[j]! := by
+  by_cases h : j < a.size
+  · by_cases h2 : i = j <;> simp [h, h2]
+  · simp [h]
+
+theorem get_push2 (a : Array β) (x y : β) (j : Nat) :
+    ((a.push x).push y)[j]! =
+      if j < a.size then a[j]! else if j = a.size then x else if j = a.size + 1 then y else default := by
+  by_cases h1 : j < a.size
+  · simp [h1, Array.getElem_push, Nat.lt_succ_of_lt h1, Nat.lt_succ_of_lt (Nat.lt_succ_of_lt h1)]
+  · by_cases h2 : j = a.size
+    · subst h2
+      rw [getElem!_pos _ _ (by simp; omega), Array.getElem_push_lt (by simp)]
+      simp
+    · by_cases h3 : j = a.size + 1
+      · subst h3
+        rw [getElem!_pos _ _ (by simp)]
+        simp [Array.getElem_push]
+        omega
+      · have : ¬ j < a.size + 1 + 1 := by omega
+        simp [h1, h2, h3, this]
+omit [Inhabited β] in
+theorem size_set (a : Array β) (i : Nat) (v : β) : (a.set! i v).size = a.size := by simp
+end arr
+
+theorem wellFormed_init : WellFormed (Tree.init : Tree α) := by
+  refine ⟨Nat.one_pos, rfl, rfl, rfl, rfl, rfl, rfl, rfl, ?_⟩
+  intro n hn h
+  have : n = 0 := by simp [Tree.init] at hn; omega
+  subst this
+  exact absurd rfl h
+
+theorem wellFormed_addChild {t : Tree α} (ht : WellFormed t) {father : Nat} (hf : father < t.nNodes)
+    (s : Split α) (hfeat : 0 ≤ s.feature) :
+    WellFormed (t.addChild father s) := by
+  have hl := ht.size_left; have hr := ht.size_right; have htg := ht.size_target
+  have hth := ht.size_thr; have hft := ht.size_feat; have hd := ht.size_depths
+  have hpos := ht.pos
+  refine ⟨by simp [Tree.addChild], by simp [Tree.addChild, hl], by simp [Tree.addChild, hr],
+    by simp [Tree.addChild, htg], by simp [Tree.addChild, hth], by simp [Tree.addChild, hft],
+    by simp [Tree.addChild, hd], ?_, ?_⟩
+  · simp only [Tree.addChild, get_push2, hd, hpos, if_true]
+    exact ht.root_depth
+  · intro n hn hne
+    simp only [Tree.addChild] at hn hne
+    simp only [get_push2, get_set, size_set, hl] at hne
+    by_cases h1 : n < t.nNodes
+    · by_cases h2 : father = n
+      · subst h2
+        have e1 : ((t.nNodes : Nat) : Int).toNat = t.nNodes := by omega
+        have e2 : (((t.nNodes : Nat) : Int) + 1).toNat = t.nNodes + 1 := by omega
+        have e3 : ¬ (t.nNodes + 1 < t.nNodes) := by omega
+        have e4 : ¬ (t.nNodes + 1 = t.nNodes) := by omega
+        constructor <;>
+          simp only [Tree.addChild, get_push2, get_set, size_set, hl, hr, hth, hft, hd, h1, and_self, if_true,
+            e1, e2, e3, e4, Nat.lt_irrefl, if_false]
+        · omega
+        · omega
+        · omega
+        · omega
+        · rfl
+        · exact ⟨_, rfl, hfeat⟩
+      · simp only [h1, h2, if_true, false_and, if_false] at hne
+        have hi := ht.internal n h1 hne
+        have hL := hi.left_toNat
+        have hR := hi.right_toNat
+        constructor <;>
+          simp only [Tree.addChild, get_push2, get_set, size_set, hl, hr, hth, hft, hd, h1, h2, hL.2, hR.2, if_true,
+            false_and, if_false]
+        · exact hi.left_gt
+        · have := hi.left_lt; omega
+        · exact hi.right_gt
+        · have := hi.right_lt; omega
+        · exact hi.depth_left
+        · exact hi.depth_right
+        · exact hi.thr_some
+        · exact hi.feat_some
+    · exfalso
+      have : n = t.nNodes ∨ n = t.nNodes + 1 := by omega
+      rcases this with h | h <;> subst h <;> simp at hne
+      omega
+
+/-! ### a concrete tree on which every hypothesis of the C19 theorems holds -/
+
+namespace Example
+
+/-- root split on feature 2 at 1/2, left leaf → cluster 0, right leaf → cluster 1 -/
+def tree : Tree Rat :=
+  Tree.init.addChild 0 { gain := 1, leaf := 0, left := 0, right := 1, feature := 2, threshold := 1/2 }
+def sh (q : Rat) : String := if q = 1/2 then "0.5" else "?"
+def nm (f : Int) : String := s!"X[:, {f}]"
+def colOf (s : String) : Nat := if s = "X[:, 2]" then 2 else 0
+def readThr (s : String) : Rat := if s = "0.5" then 1/2 else 0
+
+theorem wf : WellFormed tree := wellFormed_addChild wellFormed_init (by decide) _ (by decide)
+
+theorem left_eq : tree.left = #[1, -1, -1] := by simp [tree, Tree.addChild, Tree.init]
+theorem thr_eq : tree.thr = #[some (1/2), none, none] := by simp [tree, Tree.addChild, Tree.init]
+theorem feat_eq : tree.feat = #[some 2, none, none] := by simp [tree, Tree.addChild, Tree.init]
+
+/-- only node 0 carries a rule -/
+theorem internal_zero {n : Nat} (hn : n < tree.nNodes) (h : tree.left[n]! ≠ -1) : n = 0 := by
+  have h3 : tree.nNodes = 3 := rfl
+  rw [left_eq] at h
+  match n, hn, h with
+  | 0, _, _ => rfl
+  | 1, _, h => exact absurd rfl h
+  | 2, _, h => exact absurd rfl h
+  | n + 3, hn, _ => omega
+
+theorem readBack : ReadBack tree sh nm colOf readThr := by
+  constructor
+  · intro n hn hne v hv
+    obtain rfl := internal_zero hn hne
+    rw [thr_eq] at hv
+    have hv' : v = 1/2 := by simpa using hv.symm
+    subst hv'
+    simp [sh, readThr]
+  · intro n hn hne
+    obtain rfl := internal_zero hn hne
+    have : featAt tree 0 = 2 := by simp [featAt, feat_eq]
+    rw [this]
+    decide
+
+theorem noBlank : ThrNoBlank tree sh := by
+  intro n hn hne v hv
+  obtain rfl := internal_zero hn hne
+  rw [thr_eq] at hv
+  have hv' : v = 1/2 := by simpa using hv.symm
+  subst hv'
+  simp [sh]
+
+end Example
 
 end GemVerif.KauriC19
